@@ -3,6 +3,7 @@
 import json, os
 V = os.path.dirname(os.path.dirname(os.path.abspath(__file__)))
 
+COMMON_NOTE = 'Lean kernel; axioms propext/Classical.choice/Quot.sound. Hand-written model of the generator (front ends, passes, lowering, LIR pass, emitted facts) validated on every run by differential runs against the real crate through rendered DSL/JSON/YAML/TOML text; convert_case is an opaque oracle; concrete parsers, quote/syn and the facts extractor are trusted; definitions come from seeded structured generators.'
 CLAIMS = {
  "C01": dict(
   text="Lean 4 theorems (DDV.Props.C01) over a statement-by-statement model of ops.rs: for every pointer width, carrier, byte/bit order, buffer and in-bounds range, load and store act on exactly the documented set-bits (LSB0: s+j; MSB0: byte-segment reversal), proved by loop invariants with no bound on sizes. The model is tied to /repo by a differential run of the real ops functions and the compiled model on >10^5 generated cases per run; the implementation is also compared with the independent spec verdict.",
@@ -32,6 +33,23 @@ CLAIMS = {
   text="Lean 4 theorem layout_accept_iff (DDV.Props.C11): for every device tree, the composition of the three layout passes (byte_order_specified, bool_fields_checked, bit_ranges_validated, modelled callback by callback over the pre-order traversal) succeeds if and only if every register and command at any depth satisfies the property's own notion of a well-formed layout (non-empty in-size ranges, one-bit conversion-free bools, pairwise disjoint unless overlap is allowed, byte order known above 8 bits); plus: a rejection is always a reported error (never a panic) and carries the object's name. Proved by mutual structural induction over the nested object tree. The model is tied to /repo by running rendered definitions (DSL/JSON/YAML/TOML) through the real generator and comparing outcome, error kind, named entities and all extracted facts with the model; an independent oracle written from the property text checks the implementation's accept/reject decision.",
   note="Lean kernel; axioms propext/Classical.choice/Quot.sound. Hand-written model of the passes validated by differential runs; convert_case opaque; concrete parsers exercised not modelled; facts extractor and error classifier (harness/src/gen) trusted.",
   technique="Lean 4 proof (iff between pass success and a declarative spec, induction over the object tree) + differential correspondence + independent oracle", ref="3.11"),
+
+ "C15": dict(
+  text="Lean 4 theorem enum_accept_iff (DDV.Props.C15): for every field narrower than 127 bits the enum analysis (modelled check by check in the code's order) succeeds iff the enum satisfies the property's conditions (non-empty; no two variants with the same number under the same cfg; every number fits and is non-negative on unsigned fields; at most one default / catch-all; total unless try). analysis_numbering / numbering_agree prove that the analysis and the second numbering done at emission both equal the documented rule (start at 0, previous+1 whatever the kind) for every variant list. Differential correspondence over exhaustive variant lists (length<=3 quick, <=4 thorough) plus random wider enums; independent oracle from the property text. The check first reported two genuine defects (F8a/F8b), both repaired by fix: commits in /repo.",
+  note=COMMON_NOTE + " Fields of 127+ bits panic on `1 << bits` (modelled as panic, outside the property's widths 1..16).",
+  technique="Lean 4 proof (accept-iff-spec for the analysis, numbering agreement by induction) + differential correspondence + independent oracle", ref="3.15"),
+ "C07": dict(
+  text="Lean 4 theorems (DDV.Props.C07) over the emitted conversion functions (DDV.Gen.EnumSem: number arms in order, catch-all, default, ConversionError): the precedence rule, round trip of every unit variant and of catch-all payloads (exactly the non-listed ones) for canonical enums, infallible_getter_total (a fallback variant or full coverage of 2^bitSize patterns means no raw value of a field of w<=bitSize bits converts to Err) and unsafe_into_only_when_analysed_total (the lowering selects the unchecked conversion only under that side condition, also for enums reused by name). EnumSem is tied to the code by tabulating it in the driver and comparing with the match arms extracted from the real output; an independent oracle pushes every raw value (exhaustive up to 12 bits) through the emitted arms.",
+  note=COMMON_NOTE + " rustc's semantics of match / unwrap_unchecked are exercised by the compiled probe (thorough tier), not modelled.",
+  technique="Lean 4 proof (conversion semantics, totality, selection side condition) + differential correspondence + exhaustive raw-value oracle", ref="3.7"),
+ "C08": dict(
+  text="Lean 4 theorems (DDV.Props.C08): array_form (accepted iff ceil(size/8) bytes and no set-bit at or above size in the documented numbering of the register's byte/bit order; bytes verbatim; otherwise a reported error naming the register), int_form (for size<=128: accepted iff no bit at/above size; result = the integer's little-endian bytes cut to the byte length, reversed for BE; proved through bit-level lemmas on to_le_bytes / reverse_bits) and no_reset_is_zero. Differential correspondence over sizes x orders x forms x in-range values and single out-of-range bits, wrong lengths and ref overrides; independent oracle computes the expected constructor bytes.",
+  note=COMMON_NOTE + " decide +kernel is used for three 256-row byte tables (reverse_bits).",
+  technique="Lean 4 proof (bit-level characterisation of reset conversion) + differential correspondence + independent oracle", ref="3.8"),
+ "C18": dict(
+  text="Lean 4 theorem cfg_is_path_conjunction (DDV.Props.C18): for every object tree the depth-tracked stack walk of propagate_cfg (modelled with its stack and lazy pops) never fails and equals the tree recursion in which every object, field-set and field enum is gated by its own cfg combined with the cfgs of its enclosing blocks and nothing else; proved with a stack invariant by mutual structural induction. The check first reported the genuine defect F10 (one pop per depth decrease), repaired by a fix: commit in /repo; the theorem is now the full statement. Differential correspondence and an atom-set oracle over trees built so that objects follow closed nested blocks at every depth.",
+  note=COMMON_NOTE,
+  technique="Lean 4 proof (refinement of the stack walk to the tree recursion) + differential correspondence + independent oracle", ref="3.18"),
 }
 
 NOT_YET = {
